@@ -25,6 +25,7 @@
 EXTENDS CmdServent, Integers, Json, IOUtils
 
 CONSTANTS Slack,     \* ms granted on top of the response timeout for "completes within its timeout"
+          LoopSlack, \* ms: time the event loop + ProcessResponse are granted to take a reply off the event stream
           PromptMin  \* ms: least slack for "every target is handed the command promptly"
 
 Trace == ndJsonDeserialize(IOEnv.TRACE_FILE)
@@ -237,6 +238,20 @@ InTimeReplyWins(c) ==
         /\ \A j \in S \ {f} : mpr[j].lc > mpr[f].lr )
       => (HasEntry(t) /\ Entry(t).k = "reply" /\ Entry(t).m.tok = mpr[f].tok)
 
+\* (loop runs) a target that answered at once is not reported as failed, whatever happened to OTHER
+\* commands before - e.g. a reply to a command that had already been abandoned: the only reply of
+\* (c,t), put on the event stream after SendFunc was entered for (c,t) and at least LoopSlack ms
+\* before the response timer of (c,t) can fire, is the answer of (c,t)
+AnsweredWins(c) ==
+  \A t \in Tg(c) :
+    LET S == PRsFor(c, t) IN
+    (S # {} /\ P(c, t) \in DOMAIN mse /\ mse[P(c, t)].ok /\ P(c, t) \in DOMAIN msb) =>
+      LET f == CHOOSE i \in S : \A j \in S : i <= j IN
+      ( /\ mpr[f].emit /\ S = {f}
+        /\ mpr[f].lc > msb[P(c, t)].l
+        /\ mpr[f].tc + LoopSlack <= mse[P(c, t)].t + mto )
+      => (HasEntry(t) /\ Entry(t).k = "reply" /\ Entry(t).m.tok = mpr[f].tok)
+
 AllSent(c) == \A t \in Tg(c) : P(c, t) \in DOMAIN mse
 LastSend(c) == LET S == {mse[P(c, t)].t : t \in Tg(c)} IN CHOOSE x \in S : \A y \in S : x >= y
 \* sends of command c recorded so far
@@ -274,8 +289,11 @@ MonitorStep ==
     [] a = "SendEnd" ->
          /\ mse' = PutF(mse, P(Line.c, Line.tgt), [t |-> Now, ok |-> Line.ok])
          /\ UNCHANGED <<msb, mpr, mcb, menq, mtg, nviol>>
-    [] a = "PRCall" ->
-         /\ mpr' = Append(mpr, [id |-> Line.m.id, snd |-> Line.m.snd, tok |-> Line.m.tok, lc |-> l, lr |-> 0, tr |-> -1,
+    [] a \in {"PRCall", "EvEmit"} ->
+         \* PRCall: the reply is about to be handed to ProcessResponse; EvEmit (loop runs): the reply is put
+         \* on the Mesos event stream, from which the scheduler's own handler feeds ProcessResponse
+         /\ mpr' = Append(mpr, [id |-> Line.m.id, snd |-> Line.m.snd, tok |-> Line.m.tok, lc |-> l, lr |-> 0, tc |-> Now, tr |-> -1,
+                                emit |-> (a = "EvEmit"),
                                 dead |-> (Line.m.id \notin DOMAIN mtg \/ Line.m.snd \notin Tg(Line.m.id)
                                           \/ Cb(Line.m.id) >= 1)])
          /\ UNCHANGED <<msb, mse, mcb, menq, mtg, nviol>>
@@ -287,7 +305,7 @@ MonitorStep ==
          /\ nviol' = nviol
               + Soft("ExactlyOnce", Cb(Line.c) = 0 /\ Line.c \in menq, <<Line.c, Cb(Line.c) + 1>>)
               + Soft("OwnAnswer", OwnAnswerRec(Line.c), <<Line.c, Line.kind, Line.res, Line.errs>>)
-              + Soft("NoCrossTalk", Cb(Line.c) = 0 => InTimeReplyWins(Line.c), <<Line.c, Line.res>>)
+              + Soft("NoCrossTalk", Cb(Line.c) = 0 => (InTimeReplyWins(Line.c) /\ AnsweredWins(Line.c)), <<Line.c, Line.res>>)
               + Soft("Bounded", Cb(Line.c) = 0 => BoundedRec(Line.c), <<Line.c, Now>>)
               + Soft("TimeoutNotEarly", TimeoutNotEarlyRec(Line.c), <<Line.c, Now>>)
          /\ UNCHANGED <<msb, mse, mpr, menq, mtg>>
@@ -295,8 +313,8 @@ MonitorStep ==
          \* facts about the whole run, taken after the grace period
          /\ nviol' = nviol
               + Soft("ExactlyOnce", \A c \in menq : Cb(c) = 1, [c \in menq |-> Cb(c)])
-              + Soft("UnknownDropped", \A i \in DOMAIN mpr : mpr[i].dead => mpr[i].tr >= 0,
-                     {mpr[i].tok : i \in {j \in DOMAIN mpr : mpr[j].dead /\ mpr[j].tr < 0}})
+              + Soft("UnknownDropped", \A i \in DOMAIN mpr : (mpr[i].dead /\ ~mpr[i].emit) => mpr[i].tr >= 0,
+                     {mpr[i].tok : i \in {j \in DOMAIN mpr : mpr[j].dead /\ ~mpr[j].emit /\ mpr[j].tr < 0}})
          /\ UNCHANGED monvars
     [] OTHER -> UNCHANGED <<monvars, nviol>>
 
